@@ -452,6 +452,13 @@ def _gen_terms(run):
     return ["--terms", path]
 
 
+def _u1_rules(run):
+    if run.tier == "thorough":
+        run.model("MC_Rules", "MC_Rules.cfg", workers=workers(run), timeout=3000,
+                  note="the rewrite rules of the smart constructors, as semantic equations, on every instantiation with R "
+                       "over the depth-<=1 terms, S/T over the atoms and 10 x 10 loop ranges")
+
+
 def _explored(r):
     return r.get("op") in ("dgraph", "automaton")
 
@@ -466,6 +473,7 @@ def c01(run):
                 "whose AST has depth >= 1")
     run.assumptions = list(REGEX_ASSUME)
     _u1_regex(run)
+    _u1_rules(run)
     out, info = _drive(run, "c01", extra=_gen_terms(run))
     need = {"star": lambda r: r.get("rootop") == "star", "mk_loop": lambda r: r.get("rootop") == "mk_loop",
             "complement": lambda r: r.get("rootop") == "complement", "inter": lambda r: r.get("rootop") == "inter",
@@ -696,7 +704,7 @@ def all_u1(ids):
     models = [("MC_Chars", "MC_Chars.cfg"), ("MC_Regex", "MC_Regex.cfg"), ("MC_Literals", "MC_Literals.cfg"),
               ("MC_Strings", "MC_Strings.cfg"), ("MC_LoopRanges", "MC_LoopRanges.cfg"), ("MC_Dfa", "MC_Dfa.cfg"),
               ("MC_PartGen", "MC_PartGen.cfg"), ("MC_Builder", "MC_Builder.cfg"), ("MC_Manager", "MC_Manager.cfg"),
-              ("MC_Hopcroft", "MC_Hopcroft.cfg"), ("MC_Components", "MC_Components.cfg"), ("MC_Terms", "MC_Terms.cfg"), ("MC_CoverSearch", "MC_CoverSearch.cfg"), ("MC_MergeSweep", "MC_MergeSweep.cfg")]
+              ("MC_Hopcroft", "MC_Hopcroft.cfg"), ("MC_Components", "MC_Components.cfg"), ("MC_Terms", "MC_Terms.cfg"), ("MC_Rules", "MC_Rules.cfg"), ("MC_CoverSearch", "MC_CoverSearch.cfg"), ("MC_MergeSweep", "MC_MergeSweep.cfg")]
     bad = 0
     for m, c in models:
         if ids and m not in ids:
